@@ -129,9 +129,9 @@ var fullAlphabet bool
 func wrapperShapes() []wrapperShape {
 	var out []wrapperShape
 	src := func(v int32) *pb.RegistrationSource { s := pb.RegistrationSource(v); return &s }
-	sls, als, srcs := []int{-1, 0, 1, 8, 31, 32, 33}, []int{-1, 0, 4, 5, 16, 17}, []*pb.RegistrationSource{nil, src(1), src(2), src(4), src(99)}
+	sls, als, srcs := []int{-1, 0, 1, 7, 8, 9, 15, 16, 31, 32, 33}, []int{-1, 0, 4, 5, 16, 17}, []*pb.RegistrationSource{nil, src(1), src(2), src(4), src(99)}
 	if !fullAlphabet {
-		sls, als, srcs = []int{-1, 8, 32}, []int{-1, 4, 5, 16}, []*pb.RegistrationSource{nil, src(1), src(99)}
+		sls, als, srcs = []int{-1, 1, 7, 8, 32}, []int{-1, 4, 5, 16}, []*pb.RegistrationSource{nil, src(1), src(99)}
 	}
 	for _, sl := range sls {
 		for _, al := range als {
